@@ -243,6 +243,42 @@ def run(res, rng, drv, tier):
             res.bump("fn_over_count", danswers[-1].split()[0] if danswers[-1].startswith("ok") else danswers[-1])
     hlib.compare_batch(res, drv, "cls(value).encode() vs Model.Fn.encode", cases, lines, answers)
 
+    # a function object given a second value (set(), and field by field through attribute assignment) holds exactly the second value
+    for cls in classes:
+        if cls not in structs:
+            continue
+        st = structs[cls]
+        v1, v2 = gen_for(rng, st), gen_for(rng, st)
+        if has_nested(st, v1) or has_nested(st, v2):
+            continue
+        case = {"kind": "fn-settwice", "fn": cls.__name__, "v1": K.show_val(v1)[:200], "v2": K.show_val(v2)[:200]}
+        res.count(("fn-settwice", cls.__name__, K.show_val(v1), K.show_val(v2)))
+        try:
+            want = cls(plain_for(st, v2)).encode()
+            fn = cls(plain_for(st, v1))
+        except Exception:  # noqa: BLE001
+            continue
+        try:
+            fn.set(plain_for(st, v2))
+            got = fn.encode()
+        except Exception as exc:  # noqa: BLE001
+            got = f"{type(exc).__name__}: {exc}".encode()
+        if got != want:
+            res.violate("fn-set-twice-stale", f"{cls.__name__}: set(v2) on an object built from v1 does not leave v2", case, want.hex()[:200], got.hex()[:200])
+        if st[0] == "rec":
+            try:
+                fn = cls(plain_for(st, v1))
+                for key, f, x in zip(list(fn.data.data.keys()), st[1], v2[1]):
+                    if f[0] in ("dyn", "any"):
+                        fn.data.data[key].set(plain_for(f, x))
+                    else:
+                        setattr(fn, key, plain_for(f, x))
+                got = fn.encode()
+            except Exception as exc:  # noqa: BLE001
+                got = f"{type(exc).__name__}: {exc}".encode()
+            if got != want:
+                res.violate("fn-set-twice-stale", f"{cls.__name__}: assigning the fields of v2 to an object built from v1 does not leave v2", case, want.hex()[:200], got.hex()[:200])
+
     # malformed bodies / foreign bodies / unknown numbers
     for cls, enc in rng.shuffle(encoded)[: (400 if big else 120)]:
         s, f = cls.stream, cls.function
